@@ -144,7 +144,7 @@ def gen_tree(rng, prefix, lower, allow_nested):
             return {"name": name, "init": True, "ty": {"k": k, "cls": c}, "default": dflt}
         if required_ok and r > 0.85:
             return {"name": name, "init": True, "ty": {"k": "int"}, "default": {"kind": "missing"}}
-        init = rng.random() > 0.05
+        init = rng.random() > 0.12
         return {"name": name, "init": init, "ty": {"k": "int"}, "default": {"kind": "int", "v": rng.randrange(0, 9)}}
 
     def own_fields(inherited, n, required_ok):
@@ -172,9 +172,15 @@ def gen_tree(rng, prefix, lower, allow_nested):
                     break
                 inh = [f["name"] for f in all_fields(ALL[0], p["name"])]
                 mode = rng.random()
-                if sibs and mode < 0.25:   # identical to a sibling
+                if sibs and mode < 0.25:   # identical to a sibling …
                     src = rng.choice(sibs)
                     own = [dict(f) for f in src["fields"]]
+                    free = [q for q in pool if q not in inh and q not in [o["name"] for o in own] and q not in TYPES]
+                    if free and rng.random() < 0.3:   # … plus one init=False field (same number of INIT fields, one more field)
+                        nf = {"name": rng.choice(free), "init": False, "ty": {"k": "int"},
+                              "default": {"kind": "int", "v": rng.randrange(0, 9)}}
+                        TYPES[nf["name"]] = nf
+                        own.append(nf)
                 elif mode < 0.40:          # identical to the parent
                     own = []
                 else:
@@ -297,7 +303,7 @@ def gen_history(rng, table):
 
 
 def gen(rng, tier):
-    n_tables = 300 if tier == "quick" else 6000
+    n_tables = 200 if tier == "quick" else 4000
     for _ in range(n_tables):
         table = gen_table(rng)
         yield {"op": "sub.resolve", "case": {"classes": shuffle_definition_order(rng, table)}}
@@ -650,12 +656,6 @@ def identified(classes, d, b):
     return all(set(field_names(classes, o)) != s for o in family(classes, b) if o != d)
 
 
-def noninit_extra(classes, d, b):
-    """class d has a non-init field that b (the class it is loaded through) does not have"""
-    bf = set(field_names(classes, b))
-    return any((not f["init"]) and f["name"] not in bf for f in all_fields(classes, d))
-
-
 def _at(d, path):
     cur = d
     for p in path:
@@ -684,9 +684,6 @@ def check_node(classes, orig, res, declared, mode, save, in_container, path, sdi
         return
     D = orig["cls"]
     sig = {"path": list(path), "orig": D, "through": declared, "mode": mode, "in_container": in_container,
-           "noninit_involved": noninit_extra(classes, D, declared)
-           or bool(res and res.get("t") == "inst" and res["cls"] in family(classes, declared)
-                   and noninit_extra(classes, res["cls"], declared)),
            "type_key_written": isinstance(_at(sdict, path), dict) and "_type_" in _at(sdict, path)}
 
     def fail(clause, detail):
@@ -694,12 +691,8 @@ def check_node(classes, orig, res, declared, mode, save, in_container, path, sdi
 
     if res is None or res.get("t") != "inst":
         # nothing (or the undecoded raw dict that Optional's try_functions falls back to) came back: an exception was raised
-        # somewhere in this subtree. Name the nodes of the subtree that carry no `_type_` key and whose class has an init=False
-        # field unknown to the class they are loaded through (finding C14-noninit-field-blocks-recovery).
-        culprit = any(noninit_extra(classes, n["cls"], d) for n, d, inc in _walk(classes, orig, declared, in_container)
-                      if inc or not save)
-        fails.append(dict(sig, clause="recover", noninit_involved=culprit,
-                          type_key_written=False if culprit else sig["type_key_written"],
+        # somewhere in this subtree
+        fails.append(dict(sig, clause="recover",
                           detail=f"at {path}: no instance came back for a {D} loaded through {declared}: {str(res)[:120]}"))
         return
     R = res["cls"]
@@ -817,11 +810,9 @@ def _oracle(case, obs):
             return fails
         mode = _mode(drop, eff_dis(classes, base))
         if out["o"] != "ok":
-            # nodes that carry no `_type_` key (all of them without save_dc_types; with it, those inside containers)
-            nn = any(noninit_extra(classes, n["cls"], d) for n, d, inc in _walk(classes, inst, base, False) if inc or not save)
             fails.append({"clause": "raise", "detail": f"loading a {inst['cls']} through {base} raised {out.get('exc')}",
                           "path": [], "orig": inst["cls"], "through": base, "mode": mode, "in_container": False,
-                          "noninit_involved": nn, "exc": out.get("exc")})
+                          "exc": out.get("exc")})
             return fails
         check_node(classes, inst, out["v"], base, mode, save, False, [], obs["dict"], fails)
         if not fails and out["v"] == inst and not obs.get("equal"):
@@ -841,7 +832,6 @@ def _oracle(case, obs):
                 fails.append({"clause": "drop-base", "detail": f"dropping extra fields through {base} gave {R}"})
             if mode == "keep" and not (R in family(classes, base) and set(keys) <= set(field_names(classes, R))):
                 fails.append({"clause": "superset", "detail": f"keys {keys} through {base} gave {R}",
-                              "noninit_involved": noninit_extra(classes, R, base) if R in family(classes, base) else False,
                               "in_container": False, "path": []})
         return fails
     return fails
@@ -1010,35 +1000,19 @@ def _sig_d16(case, obs, fail):
             and fail.get("in_container") is True and fail.get("type_key_written") is False)
 
 
-def _sig_noninit(case, obs, fail):
-    """subclass recovery (no `_type_` key at the failing node) where the original class of the node — or the class that
-    came back instead — has an init=False field that the class it is loaded through does not have: such keys are demanded /
-    counted as INIT fields of the candidates, so the owner can never be chosen (RuntimeError, raw dict, or a wrong class)"""
-    if case["op"] not in ("sub.load", "sub.loaddict", "sub.history"):
-        return False
-    if fail.get("clause") not in ("identified", "superset", "recover", "raise", "either"):
-        return False
-    if fail.get("clause") == "raise" and fail.get("exc") != "RuntimeError":
-        return False
-    if fail.get("clause") == "raise":
-        return fail.get("noninit_involved") is True
-    return fail.get("noninit_involved") is True and fail.get("type_key_written") in (False, None)
-
-
 FINDINGS = {
     "C14-D16-no-type-key-in-containers": _sig_d16,
-    "C14-noninit-field-blocks-recovery": _sig_noninit,
 }
 
 MANIFEST = {
-    "text": ("Proof, partial with two named gaps. Lean theorems over the model of from_dict/to_dict: the sorted-by-size + "
-             "first-superset choice returns exactly the class whose field set identifies it, for EVERY iteration order of the "
+    "text": ("Proof, partial with one named gap. Lean theorems over the model of from_dict/to_dict: the sorted-by-size + "
+             "first-superset choice (all fields, init=False included) returns exactly the class whose field set identifies it, for EVERY iteration order of the "
              "subclass set and hence every definition order (cardinality argument, any hierarchy size); otherwise the chosen "
              "class has every serialized field; drop_extra_fields=True gives exactly the base with unknown keys dropped; with "
              "save_dc_types the exact class is restored at every depth through dataclass-typed and Optional fields. Excluded "
-             "and refuted by witnesses: instances inside List[Base]/Dict[str,Base] get no _type_ key (D16), and a subclass "
-             "whose extra field is init=False can never be chosen. The model is tied to the code by three correspondence ops on "
-             "real classes written to fresh modules in shuffled definition orders, and the property's own statement is "
+             "and refuted by a witness: instances inside List[Base]/Dict[str,Base] get no _type_ key (D16). The repaired defect "
+             "(a subclass whose extra field is init=False) is kept as regression examples. The model is tied to the code by four correspondence ops on "
+             "real classes written to fresh modules in shuffled definition orders and staged process histories, and the property's own statement is "
              "evaluated on every real observation."),
     "note": ("Trusted: Lean kernel + propext/Classical.choice/Quot.sound; dataclasses/importlib; the set iteration order is an "
              "uninterpreted permutation read from the interpreter. Modelled not verified: serializable.py:197-222,704-916, "
